@@ -138,6 +138,17 @@ pub fn panic_inventory(cf: &CrateFacts, file_filter: &dyn Fn(&str) -> bool) -> B
         }
         *inv.entry((strip_lifetimes(&a.func), format!("assert:{}", a.kind))).or_insert(0) += 1;
     }
+    // an overflow-checked subtraction on an unsigned type fails as soon as the result would be negative (a signed
+    // counter needs 2^31 steps): these are inventoried as their own kind
+    for b in &cf.binops {
+        if b.op != "SubWithOverflow" || !b.ty.starts_with('u') {
+            continue;
+        }
+        if is_lalrpop_internal(&b.func, &b.file) || !file_filter(&b.file) || !is_live(&b.func) {
+            continue;
+        }
+        *inv.entry((strip_lifetimes(&b.func), "unsigned-sub".to_string())).or_insert(0) += 1;
+    }
     inv
 }
 
@@ -162,6 +173,15 @@ pub fn panic_sites(cf: &CrateFacts, file_filter: &dyn Fn(&str) -> bool) -> BTree
             continue;
         }
         inv.entry((strip_lifetimes(&a.func), format!("assert:{}", a.kind))).or_default().push((a.file.clone(), a.line));
+    }
+    for b in &cf.binops {
+        if b.op != "SubWithOverflow" || !b.ty.starts_with('u') {
+            continue;
+        }
+        if is_lalrpop_internal(&b.func, &b.file) || !file_filter(&b.file) || !is_live(&b.func) {
+            continue;
+        }
+        inv.entry((strip_lifetimes(&b.func), "unsigned-sub".to_string())).or_default().push((b.file.clone(), b.line));
     }
     inv
 }
@@ -263,6 +283,9 @@ pub fn check_inventory_auto(cx: &mut Ctx, rule: &str, inv: &BTreeMap<(String, St
 }
 
 const PARSER_SITES: &[SiteRow] = &[
+    SiteRow { func: "<soft_keywords::SoftKeywordTransformer<I> as std::iter::Iterator>::next", kind: "unsigned-sub", max: 1, discharge: "D.counter", why: "open_lambdas -= 1 only under `open_lambdas > 0` (C01.S2 lambda pairing); the bracket-depth counters of the look-ahead are signed: a closing bracket the scan does not count as opened takes them below zero harmlessly" },
+    SiteRow { func: "lexer::Lexer::<T>::consume_character", kind: "unsigned-sub", max: 3, discharge: "C04.L1", why: "nesting -= 1 in the three closing-bracket arms, each dominated by the `nesting == 0 => Err` return" },
+    SiteRow { func: "string::StringParser::<'a>::parse_unicode_literal", kind: "unsigned-sub", max: 1, discharge: "D.hex", why: "literal_number - i with i in 1..=literal_number" },
     SiteRow { func: "<rustpython_ast::ModExpression as parser::Parse>::parse_tokens", kind: "panic", max: 1, discharge: "D.mode", why: "unreachable!: Top's StartExpression alternative builds Mod::Expression (C01.T4)" },
     SiteRow { func: "<rustpython_ast::ModInteractive as parser::Parse>::parse_tokens", kind: "panic", max: 1, discharge: "D.mode", why: "unreachable!: Top's StartInteractive alternative builds Mod::Interactive (C01.T4)" },
     SiteRow { func: "<rustpython_ast::ModModule as parser::Parse>::parse_tokens", kind: "panic", max: 1, discharge: "D.mode", why: "unreachable!: Top's StartModule alternative builds Mod::Module (C01.T4)" },
